@@ -14,8 +14,29 @@ def name_set(rng, maxn=300):
     if rng.random() < 0.4:
         a, b = rng.randrange(1, 200), rng.randrange(40, 200)
         names += [bytes([a, b]), bytes([a + 1, b - 33])]
+    # names on which the gABI elf_hash step h*16+c carries out of 32 bits (running 28-bit value >= 0xffffff1 followed by
+    # a byte >= 0x10): a transcription over a wider word agrees with the 32-bit routine everywhere else
+    if rng.random() < 0.3:
+        names += [carry_name(rng) for _ in range(rng.choice([1, 2, 4]))]
     rng.shuffle(names)
     return names
+
+
+def carry_name(rng):
+    while True:
+        t = t0 = rng.randrange(0xffffff1, 0x10000000)
+        bs = []
+        for i in range(6):                     # least significant digit first; digits are bytes 1..255
+            ks = [b for b in range(1, 256) if b % 16 == t % 16 and b <= t]
+            if not ks:
+                break
+            b = rng.choice(ks[:3] if rng.random() < 0.7 else ks)
+            bs.append(b)
+            t = (t - b) // 16
+        if len(bs) == 6 and 1 <= t <= 255:
+            bs.append(t)
+            name = bytes(reversed(bs)) + bytes([rng.randrange(2**32 - 16 * t0, 0x100)]) + bytes(rng.randrange(1, 256) for _ in range(rng.choice([0, 0, 1, 3])))
+            return name
 
 
 def colliding_absent(rng, names, hashfn, nbucket, k=6):
